@@ -1,0 +1,24 @@
+//go:build verif
+
+package index
+
+import "github.com/lindb/lindb/series/metric"
+
+// VerifSetNextSeriesID makes `next` the id the index database hands to the next NEW series of the
+// metric (test seam, add-only, no effect unless called). It only moves the per-metric series sequence,
+// i.e. it puts the index into the state it has after `next` series of the metric were created
+// (series of a metric are numbered 0, 1, 2, ... in creation order; a data family holds only those of
+// them that received points in its time range). next must be larger than every id of the metric in
+// use; false = db is not the production implementation.
+func VerifSetNextSeriesID(db MetricIndexDatabase, metricID metric.ID, next uint32) bool {
+	idx, ok := db.(*metricIndexDatabase)
+	if !ok {
+		return false
+	}
+	if next == 0 {
+		idx.sequenceCache.Remove(metricID)
+		return true
+	}
+	idx.sequenceCache.Add(metricID, next-1)
+	return true
+}
